@@ -18,7 +18,7 @@ from ..gen import c01_misc as MI
 from ..gen import c01_rs as RS
 
 PID = "C01"
-COQ_HEADER = ("From Coq Require Import List NArith ZArith.\nFrom SK Require Import lib.Tok lib.LGraph model.C01_Model model.C02_Model model.C01_Opts model.C01_String model.C01_Attrs model.C01_CleanWc model.C01_Rsmi model.C01_Nbrs model.C01_Conv model.C01_G2M model.C01_Rewrite model.C01_DecRaw model.C01_Prem.\nFrom Coq Require Import String.\n"
+COQ_HEADER = ("From Coq Require Import List NArith ZArith.\nFrom SK Require Import lib.Tok lib.LGraph model.C01_Model model.C02_Model model.C01_Opts model.C01_String model.C01_Attrs model.C01_CleanWc model.C01_Rsmi model.C01_Nbrs model.C01_Conv model.C01_G2M model.C01_Rewrite model.C01_DecRaw model.C01_Prem model.C01_Builders.\nFrom Coq Require Import String.\n"
               "Import ListNotations.\nOpen Scope Z_scope.\n")
 SHARD = 400
 IMPL_TIMEOUT = 1500
@@ -107,7 +107,7 @@ TESTED_NOT_PROVED = [
     "case with default options, and the str-* oracle requires exactly one '>>' in what its_to_rsmi writes",
     "implicit_hydrogen keeps every non-hydrogen atom's total H on graphs whose hydrogens have one bond: oracle on every ih case (theorem C01_implicit_hydrogen for all well-formed graphs)",
 ]
-LEVEL_TEXT = ("Machine-checked proof (Coq, 54 theorems) over an executable model of ITSConstruction.construct/ITSGraph and its_decompose: for all well-formed "
+LEVEL_TEXT = ("Machine-checked proof (Coq, 56 theorems) over an executable model of ITSConstruction.construct/ITSGraph and its_decompose: for all well-formed "
               "reactant/product graphs on the same node set with positive bond orders, decompose(construct(G,H)) returns exactly G and H "
               "(atoms, element, aromaticity, hydrogen count, charge, atom_map = node id, every bond with its order) - for every value of "
               "ignore_aromaticity, balance_its, store and attributes_defaults; the ITS has exactly the union of the nodes and bonds, every bond "
@@ -250,7 +250,7 @@ def coq_case(case):
         if k.startswith("str-"):
             return T.coq_pipeline(case["rsmi"], k.startswith("str-eh"), k.startswith("str-wopt")) if case["rsmi"].count(">") == 2 and case["rsmi"].count(">>") == 1 else None
         if k == "m2g":
-            return T.coq_m2g(case["smiles"], case["drop"], case["use"])
+            return T.coq_m2g(case["smiles"], case["drop"], case["use"], case.get("api", "transform"))
         if k == "g2r":
             return T.coq_g2r(case["rsmi"]) if case["rsmi"].count(">>") == 1 else None
         if k == "g2m":
@@ -440,6 +440,11 @@ def string_clauses(rsmi, G, H, explicit_hydrogen=False, write_explicit=False, no
         ok = nx.is_isomorphic(I1, I2, node_match=lambda x, y: x["lab"] == y["lab"], edge_match=lambda x, y: x["lab"] == y["lab"])
         if not ok:
             fails.append(dict(clause="string-equivalent", detail="its_to_rsmi(rsmi_to_its(r)) = %r is not atom-map-equivalent to r = %r" % (back, rsmi)))
+    def _htot(X):                                       # theorem C01_string_hydrogen_balance on the implementation
+        return sum(1 if sym == "H" else th for sym, _, th, _ in X[0].values())
+    if (_htot(A), _htot(B)) != (_htot(A2), _htot(B2)):
+        fails.append(dict(clause="string-h-balance", detail="hydrogen atoms + H counts (reactants, products): input %r, its_to_rsmi(rsmi_to_its(r)) %r"
+                          % ((_htot(A), _htot(B)), (_htot(A2), _htot(B2)))))
     if A2[2] or B2[2] or _unmapped_side(a2) != _unmapped_side(a) or _unmapped_side(b2) != _unmapped_side(b):
         fails.append(dict(clause="string-unmapped", detail="unmapped sides differ: %r vs input %r" % (back, rsmi)))
     return fails, True
@@ -1036,6 +1041,11 @@ def gen_m2g(rsmi_cases, rng, count):
             drop, use = rng.choice(((True, True), (False, True), (False, False), (True, False)))
             cases.append(dict(kind="m2g", smiles=f if rng.random() < 0.5 else _unmap_some(f, rng), drop=drop, use=use,
                               api=rng.choice(("transform", "transform", "store", "light", "detailed", "smiles_to_graph"))))
+        import re as _re                                          # the legacy builders on a molecule with NO atom map at all (bonds between two
+        bare = _re.sub(r":\d+\]", "]", s.split(".")[0])             # unmapped atoms) and with every other atom unmapped, unmapped atoms kept
+        half = _re.sub(r":(\d+)\]", lambda m_: "]" if int(m_.group(1)) % 2 else m_.group(0), s.split(".")[0])
+        for sm in (bare, half):
+            cases.append(dict(kind="m2g", smiles=sm, drop=False, use=rng.random() < 0.5, api=rng.choice(("light", "detailed"))))
     return cases
 
 
